@@ -6,7 +6,7 @@ from vlib import core
 TRUST = ("Lean 4.33 kernel; axioms at most propext/Classical.choice/Quot.sound (audited per run by #audit_module); "
          "hand-written model tied to the C++ by the correspondence harness (differential, generator-bounded); ")
 MANIFEST = dict(
-  text=("Theorems (Props/C09.lean, 75 obligations) about a statement-level model of LRUCache/CachedMatrix<Matrix> (junk-filled fresh buffers, "
+  text=("Theorems (Props/C09.lean) about a statement-level model of LRUCache/CachedMatrix<Matrix> (junk-filled fresh buffers, "
         "bounds-checked accesses, the intrusive-list surgery of swapLineIndices case by case, buffer identities): "
         "cachedMatrix_refines_spec -- for every base-matrix class whose ranged row writes its entries and whose flip exchanges two variables, every size, "
         "capacity and finite history of row/rows/entry/flip/setMaxCachedIndex/clear calls that meet the SIZE_CHECK guards in the state they are issued in "
